@@ -115,7 +115,15 @@ impl<'a> TrieEntryIter<'a> {
             let ghost old_np = node_pos;
 //@  after node_pos ^= *k as usize;
             proof { lemma_xor_low(old_np, *k, t.len() as usize); assert(*k == d[i as int]); }
-//@  before return None;
+//@  before return None; #1
+                proof {
+                    assert(*k == d[i as int]);
+                    assert(walk(t, p0, d, o0, i + 1) is None);
+                    assert forall|j: int| o0 < j <= d.len() implies !#[trigger] leaf_at(t, p0, d, o0, j) by {
+                        if j > i { lemma_walk_none(t, p0, d, o0, i + 1, j); if j == i + 1 { } }
+                    }
+                }
+//@  before return None; #2
                 proof {
                     assert(walk(t, p0, d, o0, i + 1) is None);
                     assert forall|j: int| o0 < j <= d.len() implies !#[trigger] leaf_at(t, p0, d, o0, j) by {
